@@ -260,10 +260,13 @@ fn apply(tx: &mut Transaction, a: &Act) -> Option<String> {
             dest.clone_from(tx);
             *tx = dest;
         }
-        Act::Load(k) => match loaded(*k) {
-            Some(t) => *tx = t,
-            None => return Some(format!("C04/action=load/source={}/kind=constructor-refuses", k)),
-        },
+        Act::Load(k) => {
+            // which encodings a constructor accepts is not C04's subject (C01/C02/C18): a refused load leaves the object as it
+            // was - the action is then a self-loop of the graph, not a verdict
+            if let Some(t) = loaded(*k) {
+                *tx = t;
+            }
+        }
         Act::Preimage(flag, idx) => {
             let sh = SigHash::try_from(*flag).ok()?;
             let got = tx.sighash_preimage(sh, *idx, &subscript(), VALUE).map_err(|e| e.to_string());
